@@ -26,6 +26,9 @@ type Clause struct {
 	GoName string // generated function name
 	Loop   int
 	Line   int
+	CutComment string
+	CutOrd     int
+	Havoc      []string
 	Expr   ast.Expr // body expression after load
 	Func   *ast.FuncDecl
 	Assumed bool
@@ -47,6 +50,7 @@ type Contract struct {
 	Allocates   bool
 	ModifiesAll bool
 	MayPanic    bool
+	Auto        bool // lemma: also installed as a quantified axiom in the units of its package
 	View        bool // contract on a function of another package, as seen from this package
 	RefIface    string // refine: "pkg.Iface"
 	RefVar      string
@@ -60,6 +64,7 @@ type Contract struct {
 	Ensures     []*Clause
 	Modifies    []*Clause
 	Loops       map[int]*LoopSpec
+	Cuts        []*Clause
 	ParamNames  []string
 	ParamTypes  []string
 	ResultNames []string
@@ -95,11 +100,12 @@ type PkgSpec struct {
 	TypeInvs  map[string]string // type name -> pred name
 	DynCalls  map[string]string // signature string -> "pure"
 	Abstract  []string          // named types viewed as records (e.g. bytecode.Type)
+	Options   map[string]bool
 	Hash      string
 }
 
 var clauseKW = map[string]bool{"requires": true, "ensures": true, "modifies": true, "loop": true, "allocates": true,
-	"params": true, "vars": true, "pure": true, "trusted": true, "bounded": true, "assumes": true, "maypanic": true, "callers": true, "coupling": true, "model": true}
+	"params": true, "vars": true, "pure": true, "trusted": true, "bounded": true, "assumes": true, "maypanic": true, "callers": true, "coupling": true, "model": true, "cut": true}
 
 var headRe = regexp.MustCompile(`^(func|type|lemma|canary|refine)\s+(.*)$`)
 var tagsRe = regexp.MustCompile(`\[(C[0-9]+(?:\s*,\s*C[0-9]+)*)\]`)
@@ -178,6 +184,13 @@ func ParseContractFile(path, pkgPath string) (*PkgSpec, error) {
 				curPred = p
 				cur = nil
 				continue
+			case "option":
+				if ps.Options == nil {
+					ps.Options = map[string]bool{}
+				}
+				ps.Options[strings.TrimSpace(strings.TrimPrefix(text, "option"))] = true
+				cur = nil
+				continue
 			case "abstract":
 				ps.Abstract = append(ps.Abstract, strings.TrimSpace(strings.TrimPrefix(text, "abstract")))
 				cur = nil
@@ -237,6 +250,8 @@ func ParseContractFile(path, pkgPath string) (*PkgSpec, error) {
 					cur.Pure = true
 				case "trusted":
 					cur.Trusted = true
+				case "auto":
+					cur.Auto = true
 				case "implements":
 					if fi+1 < len(fields) {
 						cur.Implements = fields[fi+1]
@@ -282,6 +297,24 @@ func ParseContractFile(path, pkgPath string) (*PkgSpec, error) {
 			cur.Trusted = true
 		case "allocates":
 			cur.Allocates = true
+		case "cut":
+			// cut <block comment> <ordinal> havoc a, b invariant EXPR
+			rest := strings.TrimSpace(strings.TrimPrefix(text, "cut"))
+			f := strings.Fields(rest)
+			hi := strings.Index(rest, " havoc ")
+			ii := strings.Index(rest, " invariant ")
+			if len(f) < 2 || hi < 0 || ii < hi {
+				return nil, fmt.Errorf("%s:%d: cut <block comment> <ordinal> havoc <locals> invariant <expr>", path, ln+1)
+			}
+			c := &Clause{Kind: "cut", Label: fmt.Sprintf("cut:%s%s", f[0], f[1]), Raw: strings.TrimSpace(rest[ii+len(" invariant "):]), Line: ln + 1, Tags: cur.Tags, CutComment: f[0]}
+			fmt.Sscanf(f[1], "%d", &c.CutOrd)
+			for _, h := range strings.Split(rest[hi+len(" havoc "):ii], ",") {
+				if h = strings.TrimSpace(h); h != "" {
+					c.Havoc = append(c.Havoc, h)
+				}
+			}
+			cur.Cuts = append(cur.Cuts, c)
+			curClause = c
 		case "maypanic":
 			cur.MayPanic = true
 		case "coupling":
@@ -921,6 +954,9 @@ func (e *Engine) GenerateOverlay(ps *PkgSpec, pkg *types.Package, fnByKey map[st
 			lks = append(lks, k)
 		}
 		sort.Ints(lks)
+		for _, c := range con.Cuts {
+			emit(c, con, loopParams, "bool")
+		}
 		for _, k := range lks {
 			ls := con.Loops[k]
 			for _, c := range ls.Invariants {
